@@ -81,6 +81,12 @@ func c01Directed(tier string) [][]uint64 {
 		for _, kind := range []uint64{5, 0, 1} {
 			out = append(out, []uint64{0, 0, 0, 0, place, 0, 0, 0, 0, enc, 0, kind, 0, 0, 0, 0, 0, 0, 0, 0, 1})
 		}
+		// the genuine signed assertion inside a wrapper element as attacker-encrypted plaintext
+		for w := uint64(0); w < 4; w++ {
+			for deep := uint64(0); deep < 2; deep++ {
+				out = append(out, []uint64{0, 0, 0, 0, place, 0, 0, 0, 0, enc, 0, 6, w, deep, 0, 0, 0, 0, 0, 0, 0})
+			}
+		}
 	}
 	return out
 }
@@ -325,6 +331,19 @@ func ssoAdversarial(r *core.Run, prop string) {
 				}
 				if conservation(r, prop, resp, logs, store, now, s.Cfg.SkipSig, ctx) && located(resp) && carriedAll(resp) && !s.Cfg.SkipSig {
 					infoConservation(r, prop, ai, ctx)
+				}
+				// what RetrieveAssertionInfo hands back is the same as what ValidateEncodedResponse returns for
+				// the same payload (which conservation has tied to the issue log)
+				if !r.Failed() && len(ai.Assertions) == len(resp.Assertions) {
+					for k := range ai.Assertions {
+						if !world.EqualAssertion(world.NormAssertion(&ai.Assertions[k]), world.NormAssertion(&resp.Assertions[k])) {
+							ctx["assertion"], ctx["via_retrieve"], ctx["via_validate"] = k, trunc(world.J(world.NormAssertion(&ai.Assertions[k])), 700), trunc(world.J(world.NormAssertion(&resp.Assertions[k])), 700)
+							r.Fail("conservation", prop+"/retrieve-returns-an-assertion-that-differs-from-the-validated-one", ctx)
+							break
+						}
+					}
+				} else if !r.Failed() {
+					r.Fail("conservation", prop+"/retrieve-returns-another-number-of-assertions", ctx)
 				}
 				if ai.ResponseSignatureValidated != resp.SignatureValidated {
 					r.Fail("flags", prop+"/summary-flag-differs-from-response-flag", ctx)
